@@ -262,6 +262,24 @@ def plans_part(ctx, cands, fresh, good, rng):
         jobs.append(("scripts:helper-edited-between-two-compilations", os.path.join(pd, "spec.json"), pd, None,
                      {"p/payroll.py (compiled twice, untouched)": PAY, "p/formulas.py (first)": FORM_V1, "p/formulas.py (then)": FORM_V2}))
         jobs.append(("scripts-alone:helper-edited-between-two-compilations", os.path.join(pd, "spec_alone.json"), pd, None, {}))
+        # each program appends its OWN lib/ directory to sys.path and imports a helper of the same name from it
+        pd = os.path.join(d, "helper-directory-added-to-the-path-by-the-program")
+        OWN_MAIN = ("import os\nimport sys\nsys.path.append(os.path.join(os.path.dirname(os.path.abspath(__file__)), 'lib'))\n"
+                    "from nada_dsl import *\nfrom util import combine\n\n\ndef nada_main():\n    p = Party(name='P0')\n"
+                    "    a = SecretInteger(Input(name='a', party=p))\n    b = SecretInteger(Input(name='b', party=p))\n"
+                    "    return [Output(combine(a, b), 'o', p)]\n")
+        OWN_U1 = "from nada_dsl import *\n\n\ndef combine(x, y):\n    return x + y\n"
+        OWN_U2 = "from nada_dsl import *\n\n\ndef combine(x, y):\n    return x * y - x\n"
+        for sub, ut in (("h1", OWN_U1), ("h2", OWN_U2), ("alone/h2", OWN_U2)):
+            os.makedirs(os.path.join(pd, sub, "lib"), exist_ok=True)
+            open(os.path.join(pd, sub, "main.py"), "w").write(OWN_MAIN)
+            open(os.path.join(pd, sub, "lib", "util.py"), "w").write(ut)
+        json.dump({"plan": [["script", os.path.join(pd, "h1", "main.py"), "one"], ["script", os.path.join(pd, "h2", "main.py"), "two"]], "report": "two"},
+                  open(os.path.join(pd, "spec.json"), "w"))
+        json.dump({"plan": [["script", os.path.join(pd, "alone", "h2", "main.py"), "two"]], "report": "two"}, open(os.path.join(pd, "spec_alone.json"), "w"))
+        jobs.append(("scripts:helper-directory-added-to-the-path-by-the-program", os.path.join(pd, "spec.json"), pd, None,
+                     {"h1/main.py = h2/main.py": OWN_MAIN, "h1/lib/util.py": OWN_U1, "h2/lib/util.py": OWN_U2}))
+        jobs.append(("scripts-alone:helper-directory-added-to-the-path-by-the-program", os.path.join(pd, "spec_alone.json"), pd, None, {}))
         # a file compiled (and failing), edited, compiled again under the same path in the same process
         pd = os.path.join(d, "rewritten-after-failure")
         os.makedirs(os.path.join(pd, "p"), exist_ok=True)
@@ -336,7 +354,7 @@ def plans_part(ctx, cands, fresh, good, rng):
             "string-without-entry-point-after-one-with", "string-using-a-name-of-an-earlier-string", "string-after-another-string",
             "directory-already-on-the-path", "returned-mir-held-while-another-program-compiles",
             "file-rewritten-same-size-bytecode-cache-on", "shared-library-with-module-level-functions",
-            "helper-edited-between-two-compilations")
+            "helper-edited-between-two-compilations", "helper-directory-added-to-the-path-by-the-program")
     items = [f"({mirprint.g_ioutcome(sc['scripts:' + t][1])}, {mirprint.g_ioutcome(sc['scripts-alone:' + t][1])})" for t in tags]
     text = (progrun.HEAD + "From NadaV.Spec Require Import MirSpec Equiv.\n"
             "Definition cases : list (ioutcome * ioutcome) :=\n  [" + ";\n   ".join(items) + "].\n"
